@@ -386,6 +386,17 @@ fn judge(g: &G, case: &Case, prop: &str) -> Judged {
 
 /// the violations a case shows for `prop`, including failures to return a tree
 fn verdicts(g: &G, case: &Case, prop: &str) -> (Vec<(String, String)>, Judged) {
+    let (mut v, j) = verdicts_raw(g, case, prop);
+    // a grammar with a known-finding shape reports everything it shows under that shape's signature
+    if let Some(tag) = g.meta.shape_tags.first() {
+        if !v.is_empty() {
+            let first = v[0].clone();
+            v = vec![(format!("{prop}.{tag}"), format!("[{}] {}", first.0, first.1))];
+        }
+    }
+    (v, j)
+}
+fn verdicts_raw(g: &G, case: &Case, prop: &str) -> (Vec<(String, String)>, Judged) {
     let j = judge(g, case, prop);
     let mut v: Vec<(String, String)> = j.viols.iter().map(|x| (x.oracle.to_string(), x.detail.clone())).collect();
     if let Some(f) = &j.fail {
